@@ -575,7 +575,7 @@ func (parseArea) Run(line string) string {
 	if l := t.libStr(s); l != "" {
 		lib = "lib-FAIL:" + l
 	}
-	// strconv.ParseFloat branch: modelled (Model/FixedTextExp.lean) except hexadecimal floats and underscore separators;
+	// strconv.ParseFloat branch: modelled (Model/FixedTextExp.lean), hexadecimal floats and underscore separators included;
 	// the float -> int64 conversion of f64.From outside the int64 range is implementation-defined and printed as `impl`
 	a = expView(s, a, f[1], f[2])
 	b = expView(ownUnquote(s), b, f[1], f[2])
@@ -590,20 +590,13 @@ func ownUnquote(s string) string {
 	return s
 }
 
-// expView rewrites the outcome `got` of parsing `s` where the model does not define a number: `exp` for the two
-// families of the exponent branch that are outside the model, `impl` where f64.From converts a float product outside
-// the int64 range (decided with the stdlib's ParseFloat and the hardware product, without the library).
+// expView rewrites the outcome `got` of parsing `s` where Go does not define a number: `impl` where f64.From converts a
+// float product outside the int64 range (decided with the stdlib's ParseFloat and the hardware product, without the
+// library).
 func expView(s, got, ty, d string) string {
 	t := strings.ReplaceAll(s, ",", "")
 	if s == "" || !isExp(t) {
 		return got
-	}
-	body := t
-	if body[0] == '+' || body[0] == '-' {
-		body = body[1:]
-	}
-	if strings.Contains(t, "_") || (len(body) >= 2 && body[0] == '0' && (body[1] == 'x' || body[1] == 'X')) {
-		return "exp"
 	}
 	if ty == "64" {
 		if fl, err := strconv.ParseFloat(t, 64); err == nil {
